@@ -317,7 +317,7 @@ func checkC11(p *Prog, r *Result, tier string) {
 	// R4
 	if rep := p.FuncByName("DB.Repair"); rep != nil {
 		sawAccept, sawUnindex := false, false
-		exploreAll(p, c, jobsFor([]*ssa.Function{rep}, []Valuation{{Cache: triNo, Async: triNo}, {Cache: triYes, Async: triYes}}), effs(EOkObjRead, EFsReadDir, EOkAccept, ECallGetCache), r, func(j exploreJob) Listener {
+		exploreAll(p, c, jobsFor([]*ssa.Function{rep}, []Valuation{{Cache: triNo, Async: triNo}, {Cache: triYes, Async: triYes}}), effs(EOkObjRead, EFsReadDir, EOkAccept, ECallGetCache, EJsonDec), r, func(j exploreJob) Listener {
 			return &effListener{p: p, r: r, root: j.root, val: j.val,
 				onEvent: func(l *effListener, x *Explorer, st *State, ev *Event) {
 					if ev.Kind != EvEffect {
@@ -343,6 +343,14 @@ func checkC11(p *Prog, r *Result, tier string) {
 						}
 					case ECallUnindex:
 						sawUnindex = true
+					case EJsonDec:
+						if st.onStack(rep) && len(st.frames) > 1 {
+							if ev.Tags&TParamObj != 0 {
+								l.bad("C11.R4", FuncName(rep), "each file is decoded into a new object", "Repair decodes object files into the caller's object, reused for every file: members missing from a file (omitempty) keep the values of the file read before, and the object is indexed with them", l.p.Pos(ev.Instr.Pos()), x, st, ev.Instr)
+							} else {
+								l.ok("C11.R4", FuncName(rep), "each file is decoded into a new object", l.p.Pos(ev.Instr.Pos()))
+							}
+						}
 					}
 				},
 				onReturn: func(l *effListener, x *Explorer, st *State, ret *ssa.Return, res []Fact) {
@@ -367,6 +375,38 @@ func checkC11(p *Prog, r *Result, tier string) {
 			r.Report("C11.R4", FuncName(rep), "drops entries without file", Violated, "no path of Repair un-indexes an entry", "", nil, true)
 		}
 		r.Report("C11.R4", FuncName(rep), "no object file mutation", Discharged, "reported as violated per effect if any is reached", "", nil, true)
+		// order of the two loops: stale entries are dropped before unindexed files are indexed (a stale entry may
+		// hold a unique value that a new file needs)
+		var accHdr, delHdr *ssa.BasicBlock
+		for _, lp := range naturalLoops(rep) {
+			for _, b := range lp.blocks {
+				for _, in := range b.Instrs {
+					call, ok := in.(*ssa.Call)
+					if !ok {
+						continue
+					}
+					f := call.Call.StaticCallee()
+					if f == nil || !inSod(p, f) {
+						continue
+					}
+					cl := c.Of(f)
+					switch {
+					case cl.Has(EErrUnique) && cl.Has(EIdxWLive) && !cl.Has(EFsRObj):
+						accHdr = lp.header
+					case cl.Has(EIdxWLive) && !cl.Has(EErrUnique) && !cl.Has(EFsRObj) && !cl.Has(ETblR):
+						delHdr = lp.header
+					}
+				}
+			}
+		}
+		switch {
+		case accHdr == nil || delHdr == nil:
+			r.Report("C11.R4", FuncName(rep), "stale entries dropped before files are indexed", Undecided, "the two loops of Repair were not both recognised", p.Pos(rep.Pos()), nil, true)
+		case delHdr.Dominates(accHdr) && !accHdr.Dominates(delHdr):
+			r.Report("C11.R4", FuncName(rep), "stale entries dropped before files are indexed", Discharged, "", p.Pos(rep.Pos()), nil, true)
+		default:
+			r.Report("C11.R4", FuncName(rep), "stale entries dropped before files are indexed", Violated, "Repair indexes unindexed files before it drops the entries whose file is gone: a stale entry holding a unique value vetoes the file that now carries it, Repair returns the uniqueness error and never converges", p.Pos(rep.Pos()), nil, true)
+		}
 	} else {
 		r.Report("C11.R4", "DB.Repair", "function", Undecided, "Repair not found", "", nil, false)
 	}
